@@ -32,6 +32,9 @@ RULE = ("cases = codec (bits, M, container form) exhaustively over all bit strin
         "and on DAC waveforms; rejected orders/lengths; malformed inputs.  non-trivial = accepted call on a non-empty input, "
         "distinct by (kind, M, input, draws)")
 PARTIAL = [
+    "arguments are left unchanged by PPM_ENCODER / PPM_DECODER / HDD / SDD: runtime monitor on every call (bytes of ndarray inputs and of "
+    "a container's .data / .signal / .noise, repr of lists, before and after), not a theorem (the model is functional); repeated "
+    "SDD calls on the same object must repeat the first decision (oracle + model tie)",
     "container forms agree: list/tuple/ndarray/binary_sequence are one model input; for strings the theorem (`forms_agree`) covers "
     "plain bit strings over the characters 0 1 space comma; strings of the other str2array classes (tabs, ';', digits 2-9, "
     "floats) are modelled (Model/BinSeqStr.lean) and tied by the differential run only",
@@ -113,8 +116,24 @@ def _out(r):
             "ndim": int(r.data.ndim)}
 
 
+def _snap(x):
+    """what an argument looks like from outside: bytes of arrays / of a container's .data, .signal, .noise; repr of lists"""
+    import numpy as np
+    from opticomlib.typing import binary_sequence, electrical_signal
+    if isinstance(x, np.ndarray):
+        return ("ndarray", x.tobytes(), x.shape, str(x.dtype))
+    if isinstance(x, binary_sequence):
+        return ("binary_sequence", _snap(x.data))
+    if isinstance(x, electrical_signal):
+        return ("electrical_signal", _snap(x.signal), None if x.noise is None else _snap(x.noise))
+    if isinstance(x, (list, tuple, str)):
+        return (type(x).__name__, repr(x))
+    return None
+
+
 def _guard(fn, *a):
-    """call real code under the watchdog; normalise the outcome"""
+    """call real code under the watchdog; normalise the outcome; monitor: the arguments are the same afterwards"""
+    before = [_snap(x) for x in a]
     try:
         with time_limit(30):
             with warnings.catch_warnings():
@@ -122,11 +141,15 @@ def _guard(fn, *a):
                 r = fn(*a)
         d = _out(r)
         d["status"] = "ok"
-        return d
     except Timeout as e:
         return {"status": "timeout", "detail": str(e)}
     except Exception as e:  # noqa
-        return {"status": "err", "err": exc_enum(e), "exc": type(e).__name__, "detail": repr(e)[:160]}
+        d = {"status": "err", "err": exc_enum(e), "exc": type(e).__name__, "detail": repr(e)[:160]}
+    changed = [k for k, (b, x) in enumerate(zip(before, a)) if b != _snap(x)]
+    d["args_unchanged"] = not changed
+    if changed:
+        d["changed_arg"] = f"{getattr(fn, '__name__', fn)}: argument {changed[0]} ({before[changed[0]][0]}) was modified by the call"
+    return d
 
 
 def is_pow2(M):
@@ -256,10 +279,34 @@ def gen_cases(rng, tier):
         lo, hi = {"rand": (-400, 400), "ties": (0, 2), "small": (-3, 3), "neg": (-400, 0)}[style]
         xs = [rng.randint(lo, hi) for _ in range(nsym * M * sps)]
         form = rng.choice(sdd_forms)
-        c = {"kind": "sdd", "M": M, "sps": sps, "xs": xs, "form": form}
+        c = {"kind": "sdd", "M": M, "sps": sps, "xs": xs, "form": form, "repeat": rng.choice([0, 1, 2])}
         if form == "esig_noise":
             c["ns"] = [rng.randint(lo, hi) for _ in xs]
         cases.append(c)
+    # the same container decided 2-3 times, noise close to the decision margin: the winner of signal+noise beats the runner-up
+    # by less than the noise that separates them, so signal + 2*noise (or signal alone) would decide otherwise
+    for _ in range(60 if quick else 1200):
+        M = rng.choice([2, 4, 8, 16])
+        sps = rng.choice([1, 2, 3, 4, 8])
+        nsym = rng.randrange(1, 6)
+        xs, ns = [], []
+        for _s in range(nsym):
+            a, b = rng.sample(range(M), 2)
+            d = rng.randint(3, 9)
+            base = rng.randint(0, 40)
+            ex = [rng.randint(0, max(0, base - 10)) for _ in range(M)]      # signal energy per slot
+            en = [rng.randint(-2, 2) if rng.random() < 0.3 else 0 for _ in range(M)]
+            ex[a], ex[b] = base + 20 + d, base + 20
+            en[a], en[b] = 0, d - 1                                        # a wins by 1; twice the noise lets b win by d - 2
+            if rng.random() < 0.3:
+                en[a], en[b] = -(d - 1), 0                                 # or the noise pulls the winner down
+            for slot in range(M):
+                for tgt, tot in ((xs, ex[slot]), (ns, en[slot])):
+                    parts = [0] * sps
+                    for _u in range(abs(tot)):
+                        parts[rng.randrange(sps)] += 1 if tot > 0 else -1
+                    tgt.extend(parts)
+        cases.append({"kind": "sdd", "M": M, "sps": sps, "xs": xs, "ns": ns, "form": "esig_noise", "repeat": rng.choice([1, 2])})
     # exhaustive small SDD: all energy patterns over {0,1,2} for one/two symbols, sps = 1
     for M in [2, 4]:
         for t in itertools.product([0, 1, 2], repeat=M * (2 if M == 2 else 1)):
@@ -461,8 +508,12 @@ def run_impl(case):
             return {"status": runs[0]["status"], "hdd": runs[0], "runs": runs}
         if kind == "sdd":
             from opticomlib.ppm import SDD
-            r = _with_sps(case["sps"], lambda: _guard(SDD, _sdd_input(case, case["xs"], case.get("ns")), case["M"]))
-            return {"status": r["status"], "sdd": r}
+            def go():
+                obj = _sdd_input(case, case["xs"], case.get("ns"))
+                # the SAME object is handed over again: every further decision must be the first one
+                return [_guard(SDD, obj, case["M"]) for _ in range(1 + case.get("repeat", 0))]
+            rs = _with_sps(case["sps"], go)
+            return {"status": rs[0]["status"], "sdd": rs[0], "sdd_again": rs[1:]}
         if kind == "wave":
             from opticomlib.ppm import SDD, HDD, PPM_DECODER
             with time_limit(30):
@@ -567,6 +618,11 @@ def compare(case, res, reqs, replies):
         wants = [_want(run) for run in res["runs"]]
     else:
         wants = [_want(res[k]) for k in impl[:len(reqs)]]
+    if kind == "sdd" and reqs:
+        for k, rr in enumerate(res.get("sdd_again", [])):
+            if replies[0].strip() not in ("unmodelled",) and _want(rr) != replies[0].strip():
+                out.append(f"{reqs[0][:60]}…: model {replies[0].strip()[:100]!r}, implementation on call {k + 2} of the same object {_want(rr)[:100]!r}")
+                break
     for req, rep, want in zip(reqs, replies, wants):
         rep = rep.strip()
         if rep == "unmodelled":
@@ -636,7 +692,28 @@ def _oracle_hdd(case, r, M):
     return v
 
 
+def _all_results(res):
+    for x in res.values():
+        if isinstance(x, dict):
+            yield x
+        elif isinstance(x, list):
+            for y in x:
+                if isinstance(y, dict):
+                    yield y
+
+
 def oracle(case, res):
+    """the statement's clauses first, then the runtime monitor (arguments unchanged by the call)"""
+    v = list(_oracle_statement(case, res))
+    if not res.get("setup"):
+        for r in _all_results(res):
+            if r.get("args_unchanged") is False:
+                v.append(("C12:mutates-input:" + case["kind"], f"{r.get('changed_arg')}; case {str(case)[:240]}"))
+                break
+    return v
+
+
+def _oracle_statement(case, res):
     v = []
     kind = case["kind"]
     if res.get("setup"):
@@ -709,15 +786,25 @@ def oracle(case, res):
             return [("C12:sdd-accept", f"SDD(M={M}, sps={sps}, {len(xs)} samples) failed: {r}")]
         _valid_type(r, "SDD", v)
         e = [sum(xs[i:i + sps]) for i in range(0, len(xs), sps)]
-        out = r["bits"]
-        if len(out) != len(e):
-            return v + [("C12:sdd-length", f"SDD(M={M}, sps={sps}, {len(xs)} samples) returned {len(out)} slots, required {len(e)}")]
-        for i in range(0, len(e), M):
-            sym, o = e[i:i + M], out[i:i + M]
-            # a tie leaves the choice among the maxima open in the statement (the model tie pins numpy's first maximum)
-            if o.count("1") != 1 or sym[o.index("1")] != max(sym):
-                v.append(("C12:sdd-argmax", f"SDD(M={M}, sps={sps}) symbol {i // M}: slot energies x{SCALE} = {sym} but output {o!r}: "
-                                            f"exactly the slot of largest integrated energy must be ON"))
+        for call, rr in enumerate([r] + list(res.get("sdd_again", []))):
+            nth = "" if call == 0 else f" (call {call + 1} on the same {case['form']} object)"
+            if rr["status"] != "ok":
+                v.append(("C12:sdd-accept", f"SDD(M={M}, sps={sps}, {len(xs)} samples) failed{nth}: {rr}"))
+                break
+            out = rr["bits"]
+            if len(out) != len(e):
+                return v + [("C12:sdd-length", f"SDD(M={M}, sps={sps}, {len(xs)} samples) returned {len(out)} slots{nth}, required {len(e)}")]
+            for i in range(0, len(e), M):
+                sym, o = e[i:i + M], out[i:i + M]
+                # a tie leaves the choice among the maxima open in the statement (the model tie pins numpy's first maximum)
+                if o.count("1") != 1 or sym[o.index("1")] != max(sym):
+                    v.append(("C12:sdd-argmax", f"SDD(M={M}, sps={sps}){nth} symbol {i // M}: slot energies of signal+noise x{SCALE} = {sym} "
+                                                f"(signal x{SCALE} = {case['xs'][i * sps:(i + M) * sps]}, noise = {(case.get('ns') or [])[i * sps:(i + M) * sps]}) "
+                                                f"but output {o!r}: exactly the slot of largest integrated energy must be ON"))
+                    break
+            if call and rr["bits"] != r["bits"] and not v:
+                v.append(("C12:sdd-repeat", f"SDD(M={M}, sps={sps}){nth} returned {rr['bits'][:64]} but the first call {r['bits'][:64]}"))
+            if v:
                 break
         return v
     if kind == "wave":
@@ -782,6 +869,8 @@ def features(case, res):
             f.append("hdd:empty-symbol")
         if d.get("c"):
             f.append("hdd:crowded-symbol")
+    if kind == "sdd":
+        f.append("sdd:calls-on-same-object=" + str(1 + len(res.get("sdd_again", []))))
     if kind in ("sdd", "wave"):
         f.append("sps=" + str(case["sps"]))
         f.append("sdd-form=" + case["form"])
